@@ -67,6 +67,9 @@ def ext_slope (a : PyxSpec.c_slope.Args) : Ext
 def ext_inside (a : PyxSpec.c_inside.Args) : Ext
   | .points => a.points | .polygon => a.polygon | .xlim => a.polygon_xlim | .ylim => a.polygon_ylim
   | .inside => a.inside | _ => 0
+def ext_delineate_boundary (a : PyxSpec.c_delineate_boundary.Args) : Ext
+  | .idxcellsArea => a.idxcells_area | .buffer => a.buffer | .mask => a.catchment_area_mask
+  | .idxboundary => a.idxcells_boundary | _ => 0
 def ext_flowpathlengths (a : PyxSpec.c_delineate_flowpathlengths_in_catchment.Args) : Ext
   | .flowdircode => a.flowdircode | .flowdir => a.flowdir | .idxcellsArea => a.idxcells_area
   | .flowpaths => a.flowpathlengths | _ => 0
@@ -101,6 +104,11 @@ def PyAlloc_exclude_zero (s : PyxSpec.exclude_zero_area_boundary.Shapes) : Prop 
 /-- `Catchment.intersect`: `idxcells = np.zeros(nrows*ncols)`, `weights` likewise, for the grid it intersects with -/
 def PyAlloc_intersect (s : PyxSpec.intersect.Shapes) (v : PyxSpec.intersect.Scalars) : Prop :=
   0 ≤ v.nrows ∧ 0 ≤ v.ncols ∧ v.nrows * v.ncols ≤ 9223372036854775807 ∧ (s.idxcells_0 : Int) = v.nrows * v.ncols
+
+/-- `Catchment.delineate_boundary`: `(nrows, ncols)` are the sides of the flow direction grid, an existing array;
+sides below 2·10⁹ (the kernel squares their maximum and the row / column differences in `long long`) -/
+def PyAlloc_boundary (v : PyxSpec.delineate_boundary.Scalars) : Prop :=
+  (0 ≤ v.nrows ∧ v.nrows ≤ 2000000000) ∧ (0 ≤ v.ncols ∧ v.ncols ≤ 2000000000)
 
 /-- `dutils.var2h`: `hstartsec` is the epoch second of a `datetime` (year ≤ 9999) -/
 def PyAlloc_var2h (v : PyxSpec.var2h.Scalars) : Prop :=
